@@ -11,9 +11,10 @@ scope skips / leaves the block at the next checkpoint), `_main_task` starts exac
 Trusted (TRIO_NOTES): trio.CancelScope() gives a new, uncancelled scope; inside a run `scope.cancel_called` answers
 whether cancel() was called and cancel() never fails; OUTSIDE a run (`_nursery is None`) `cancel_called` answers True
 for a cancelled scope and otherwise either answers False (a scope that was entered and left) or raises RuntimeError
-(trio asks the clock of a run that does not exist: observed with trio 0.34), and cancel() either works or raises
-RuntimeError (trio versions differ); `nursery.start_soon(task, scope, *args)` only records the request; a nursery
-object is truthy.
+(trio asks the clock of a run that does not exist: observed with trio 0.34); cancel() marks the scope, inside and
+outside a run (it needs no run: trio 0.34 `CancelScope.cancel` catches the RuntimeError of current_task() itself --
+checked on the installed trio: `trio.CancelScope().cancel()` outside a run succeeds and cancel_called is True
+afterwards); `nursery.start_soon(task, scope, *args)` only records the request; a nursery object is truthy.
 
 Class invariant (what callbacks and the application can observe between the loop's operations):
   `_nursery is not None`  =>  nothing is queued in `_pending_tasks`    (_main_task empties the queue right after it
@@ -29,8 +30,8 @@ Statement clauses:
                        never starts it), every other entry stays; not running, not queued: never True for a scope
                        cancelled before.
                        "removing it again reports failure":  a removal that answered True must leave the scope
-                       cancelled (inside a run the next removal answers `not scope.cancel_called`).
-                       FAILS-ON-TREE for an alarm / watch removed from the queue before run(): see `again_fails`.
+                       cancelled (inside a run the next removal answers `not scope.cancel_called`).  (Failed on the tree
+                       for an alarm / watch removed from the queue before run(): fixed in /repo 0fe9cb0, see `again_fails`.)
   enter_idle / remove_enter_idle   as for the other loops (fresh handle; reports whether registered; others untouched)."""
 import ast
 
@@ -60,8 +61,8 @@ CS = S.opaque_sort("CancelScope")
 
 TRIO_NOTES = (
     "trio (external, opaque): CancelScope() is a new uncancelled scope; inside a run cancel_called answers whether cancel() was called, "
-    "cancel() marks it; outside a run cancel_called answers True for a cancelled scope, else False or RuntimeError, and cancel() marks it "
-    "or raises RuntimeError; Nursery.start_soon only records the request; a nursery is truthy.  A task body runs inside `with scope:` "
+    "cancel() marks it (inside or outside a run); outside a run cancel_called answers True for a cancelled scope, else False or "
+    "RuntimeError; Nursery.start_soon only records the request; a nursery is truthy.  A task body runs inside `with scope:` "
     "(trio: a cancelled scope is left at the next checkpoint) -- the coroutines are outside pyvc.")
 
 if _trl is not None:
@@ -106,8 +107,6 @@ if _trl is not None:
         def call(self, ip, st, recv, name, args, kwargs):
             if args or kwargs:
                 raise Unsupported("scope.cancel with arguments")
-            if not _running(st) and st.fork(2) == 1:
-                raise PyRaise(SExc(RuntimeError, ("must be called from async context",), site="trio: cancel outside a run"))
             st.event("scope.cancel", recv)
             old = _cancelled(st)
             st.ghost["cs_cancelled"] = lambda x: either(old(x), eq(x, recv))
@@ -376,7 +375,7 @@ if _trl is not None:
             yield "no-entry-with-that-scope-stays-queued-so-the-run-never-starts-it", neg(pn.q(scope))
             yield "every-other-queued-task-stays-queued-and-none-is-added", implies(neg(eq(other, scope)), eq(pn.q(other), po.q(other)))
             if pn.replaced is not None:
-                yield "the-queue-got-shorter-and-nothing-is-asked-of-trio", both(pn.n < po.n, not cancels, po.q(scope))
+                yield "the-queue-got-shorter", both(pn.n < po.n, po.q(scope))
             else:
                 yield "otherwise-the-queue-is-untouched", both(queue_untouched(old, s), neg(po.q(scope)))
         yield "the-idle-callbacks-are-untouched", both(idle_untouched(old, s), s._nursery is old._nursery)
@@ -385,9 +384,9 @@ if _trl is not None:
     def again_fails(st, scope, result):
         # "the removal reports success and removing it again reports failure": inside a run the next removal answers
         # `not scope.cancel_called`, so a removal that answered True must leave the scope cancelled.
-        # FAILS-ON-TREE: loop = TrioEventLoop(); h = loop.alarm(0.01, cb); loop.remove_alarm(h) -> True (dropped from the
-        # queue, scope NOT cancelled); later, from a callback inside loop.run(): loop.remove_alarm(h) -> True again
-        # (same for watch_file / remove_watch_file).  Replayed on /repo with trio 0.34.
+        # (Before /repo 0fe9cb0 this failed: loop = TrioEventLoop(); h = loop.alarm(0.01, cb); loop.remove_alarm(h) -> True
+        # (dropped from the queue, scope NOT cancelled); later, from a callback inside loop.run(): loop.remove_alarm(h)
+        # -> True again; same for watch_file / remove_watch_file.  Replayed with trio 0.34.)
         yield "a-removal-that-reported-success-leaves-the-scope-cancelled-so-removing-it-again-reports-failure", implies(eq(result, True), _cancelled(st)(scope))
 
     @contract(TRL + "TrioEventLoop._cancel_scope", property="C13", replayable=False)
